@@ -434,6 +434,7 @@ func (w *worker[T, JobType]) notifyToPullNextJobs() {
 		// no one is listening. This is generally fine as it's a non-blocking send.
 	}
 	w.mx.RUnlock()
+	vhook("notify.done")
 }
 
 // numMinIdleWorkers returns the number of idle workers to keep based on concurrency and config percentage
